@@ -1,5 +1,7 @@
 package main
 
+import "golang.org/x/tools/go/ssa"
+
 func init() { registry["C18"] = checkC18 }
 
 func checkC18(c *Ctx) {
@@ -21,6 +23,11 @@ func checkC18(c *Ctx) {
 	pfin := p.Func(pb, "VerifierState", "Finalize")
 	c.guard(p, "C18.finalize", "signature released only if the unblinded signature verifies", fin, GuardSpec{Assumes: []Assume{calleeAssume(latNonNil, -1, vbs)}})
 	c.guard(p, "C18.finalize", "signature released only if the unblinded signature verifies", pfin, GuardSpec{Assumes: []Assume{calleeAssume(latNonNil, -1, vbs)}})
+	// z and z+N unblind to the same signature: a blind signature that is not below the modulus is an altered one
+	for _, f := range []*ssa.Function{fin, pfin} {
+		c.guard(p, "C18.finalize", "blind signature representative above the modulus refused", f, GuardSpec{Assumes: []Assume{calleeAssume(latInt(1), -1, "(*math/big.Int).Cmp")}})
+		c.guard(p, "C18.finalize", "blind signature representative equal to the modulus refused", f, GuardSpec{Assumes: []Assume{calleeAssume(latInt(0), -1, "(*math/big.Int).Cmp")}})
+	}
 	c.lenReject(p, "C18.finalize", fin, "blindedSig", false)
 	c.lenReject(p, "C18.finalize", pfin, "data", false)
 	c.guard(p, "C18.finalize", "VerifyBlindSignature accepts only on equality with the encoded message", p.Func(cm, "", "VerifyBlindSignature"),
